@@ -23,6 +23,9 @@ enum Route {
     /// native injection, plain toimage, grayscale: the default export applies VOI/normalisation by
     /// design, so only dimensions (and success) are asserted
     C,
+    /// native injection, toimage --unwrap: the exported file is exactly the native frame bytes
+    /// (little-endian samples as fromimage documents, no padding byte)
+    D,
 }
 impl Route {
     fn name(self) -> &'static str {
@@ -30,6 +33,7 @@ impl Route {
             Route::A => "a-encapsulate-unwrap",
             Route::B => "b-native-rgb",
             Route::C => "c-native-gray-dims",
+            Route::D => "d-native-unwrap",
         }
     }
 }
@@ -94,7 +98,7 @@ fn images(check: &Check) -> Vec<(String, Image)> {
                 out.push((format!("{}/{w}x{h}/v{i}", color.name()), Image { color, w, h, samples: s }));
             }
         }
-        let mut shapes = vec![(2u32, 2u32), (3, 1), (1, 3), (4, 3)];
+        let mut shapes = vec![(2u32, 2u32), (3, 1), (1, 3), (4, 3), (3, 3), (3, 5)];
         if check.thorough() {
             shapes.extend([(7, 5), (64, 1), (1, 64), (64, 64)]);
         }
@@ -311,8 +315,8 @@ fn run_case(l: &mut Attempt, verbose: bool, c: &Case, dir: &Path, fromimage: &Pa
     }
 
     // 3. export
-    let mut args = vec!["mid.dcm", "-o", "out.png"];
-    if c.route == Route::A {
+    let mut args = vec!["mid.dcm", "-o", if c.route == Route::D { "out.bin" } else { "out.png" }];
+    if c.route == Route::A || c.route == Route::D {
         args.push("--unwrap");
     }
     let log2 = dir.join("toimage.log");
@@ -324,6 +328,18 @@ fn run_case(l: &mut Attempt, verbose: bool, c: &Case, dir: &Path, fromimage: &Pa
         l.outcome("toimage-failed");
         let kind = if r == Ran::Timeout { "timeout" } else { "tool-error" };
         l.fail_transient(class(c, "toimage", kind), detail(json!({ "status": r.describe(), "output": read_log(&log2), "dataset": dsx::show(&els) })));
+        return;
+    }
+    if c.route == Route::D {
+        let got = std::fs::read(dir.join("out.bin")).unwrap_or_default();
+        if got != native_le {
+            l.outcome("unwrapped-native-bytes-differ");
+            let kind = if got.len() != native_le.len() { "unwrapped-length" } else { "unwrapped-bytes" };
+            l.fail(class(c, "compare", kind), detail(json!({ "expected_len": native_le.len(), "got_len": got.len(),
+                "expected": format!("{:02X?}", &native_le[..native_le.len().min(32)]), "got": format!("{:02X?}", &got[..got.len().min(34)]) })));
+            return;
+        }
+        l.outcome_with(if native_le.len() % 2 == 1 { "ok-native-frame-bytes-equal-odd-length" } else { "ok-native-frame-bytes-equal" }, || json!({ "case": c.id }));
         return;
     }
     let got = match img::read_png(&dir.join("out.png")) {
@@ -365,9 +381,9 @@ fn main() {
     check.set_rule(
         "images = colour types {L8, L16, RGB8, RGB16} x (1x1: every assignment of {0,1,max} (16-bit: + 0x0102, 0xFF00) to the channels; \
          1x2 and 2x1: every assignment of a 3-value alphabet ({0,1,255} / {0,0x0102,0xFFFF}) to all samples (quick, colour: 3-letter alphabet for 1x1, and for two pixels (RGB8 2x1, RGB16 1x2) one pixel fixed to (max,0,0) (RGB8 the second, RGB16 the first) while the other takes every assignment); \
-         2x2, 3x1, 1x3, 4x3 (thorough: + 7x5, 64x1, 1x64, 64x64): distinct index-coded byte-asymmetric samples) \
-         x base DICOM files {8-bit mono ELE, 16-bit signed mono with rescale/window ILE, 8-bit planar RGB 2 frames ELE} (quick: one base per image in rotation, all bases for the first 1x1 assignment and the 2x2 and 4x3 index-coded images) \
-         x routes {(a) fromimage --encapsulate + toimage --unwrap; (b) native + toimage for colour; (c) native + toimage for grey, dimensions only}; \
+         2x2, 3x1, 1x3, 4x3, 3x3, 3x5 (thorough: + 7x5, 64x1, 1x64, 64x64): distinct index-coded byte-asymmetric samples) \
+         x base DICOM files {8-bit mono ELE, 16-bit signed mono with rescale/window ILE, 8-bit planar RGB 2 frames ELE} (quick: one base per image in rotation, all bases for the first 1x1 assignment and the 2x2 and 3x3 index-coded images) \
+         x routes {(a) fromimage --encapsulate + toimage --unwrap; (b) native + toimage for colour; (c) native + toimage for grey, dimensions only; (d) native + toimage --unwrap: the file is exactly the native little-endian frame bytes without padding (quick: not for two-pixel images, three of the RGB16 1x1 assignments)}; \
          a case is (image, base, route), distinct by id; non-trivial = fromimage produced the intermediate file",
     );
     check.assume("the png crate (encoder/decoder used by the harness) and vx-ref (base file encoder, strict parser of the intermediate file) are the trusted base");
@@ -383,11 +399,18 @@ fn main() {
         for (bn, (bname, b)) in bases.iter().enumerate() {
             // quick tier: one base per image (rotating, so every colour type meets every base); the first
             // assignment and the index-coded images of every shape meet all bases
-            if check.quick() && bn != n % bases.len() && !(iid.ends_with("/1x1/v0") || iid.ends_with("/2x2/idx") || iid.ends_with("/4x3/idx")) {
+            if check.quick() && bn != n % bases.len() && !(iid.ends_with("/1x1/v0") || iid.ends_with("/2x2/idx") || iid.ends_with("/3x3/idx")) {
                 continue;
             }
             let routes: &[Route] = if im.color.channels() == 3 { &[Route::A, Route::B] } else { &[Route::A, Route::C] };
-            for r in routes {
+            let mut routes = routes.to_vec();
+            // route (d): quick leaves out the two-pixel colour assignments (their index-coded and 1x1 images stay)
+            // and the two-pixel grey assignments, and takes three of the RGB16 1x1 assignments
+            let skip_d = check.quick() && (im.w * im.h == 2 || (im.color == Color::Rgb16 && im.w * im.h == 1 && !(iid.ends_with("/v0") || iid.ends_with("/v1") || iid.ends_with("/v2"))));
+            if !skip_d {
+                routes.push(Route::D);
+            }
+            for r in &routes {
                 cases.push(Case { id: format!("{}/{iid}/{bname}", &r.name()[..1]), route: *r, image: im, base_name: bname, base: b });
             }
         }
